@@ -21,6 +21,7 @@ EXPLANATION = (
     "(arange(NC) then [:nc]) with the documented (channels per ADC, cycles) table. Equality of the two metadata encodings, "
     "delay values on real probes and arbitrary IMRO selections are NOT decided."
     ' (D5 as built) ADC group / delay are attached to the site table before any restriction or permutation of it (shank split, sort), since adc_shifts assigns by position; a closed-form delay ((c // 2) mod channels per ADC) / cycles is accepted next to the per-ADC loop.'
+    " (D8) a site's coordinates are a function of that site's own map entry: no reduction over the saved sites (min / max / mean ...) feeds x, y, col, row in geometry_from_meta, rc2xy, xy2rc."
 )
 ASSUMPTIONS = [
     "numpy.lexsort sorts by the last key first (model table)",
